@@ -195,6 +195,14 @@ def fam_prodtree():
     return Family("prodtree", v, ["s1"], ["o2"], ["all", "use"], quick=True)
 
 
+def fam_deepdir():
+    # a directory-tree input with a file two levels down: an in-place edit there changes no directory's own stat record
+    b = Desc("base", [Cmd("C1", ["sd/"], ["o1"]), Cmd("C2", ["o1", "s2"], ["o2"])], {"all": ["o2"], "mid": ["o1"]})
+    v = [b, retag(b, "tag-C1", "C1")]
+    return Family("deepdir", v, ["sd/sub/c", "sd/a", "s2"], ["o1"], ["all", "mid"],
+                  init={"s2": "s2:0", "sd/a": "sd/a:0", "sd/sub/c": "sd/sub/c:0", "sd/sub/deep/e": "sd/sub/deep/e:0"}, quick=True)
+
+
 def fam_chain3():
     b = Desc("base", [Cmd("C1", ["s1"], ["o1"]), Cmd("C2", ["o1"], ["o2"]), Cmd("C3", ["o2", "s2"], ["o3"])],
              {"all": ["o3"], "mid": ["o2"]})
@@ -342,7 +350,7 @@ def fam_default():
 
 def all_families():
     fs = [fam_chain(), fam_diamond(), fam_multi(), fam_virt(), fam_dir(), fam_tools(), fam_typedir(),
-          fam_isdir(), fam_aood(), fam_allowmissing(), fam_deps(), fam_deps2(), fam_linkout(), fam_prodtree(), fam_chain3(), fam_fanin(), fam_fanout(),
+          fam_isdir(), fam_aood(), fam_allowmissing(), fam_deps(), fam_deps2(), fam_linkout(), fam_prodtree(), fam_deepdir(), fam_chain3(), fam_fanin(), fam_fanout(),
           fam_phonyfile(), fam_dirchain(), fam_dirmulti(), fam_srcdir2(), fam_mkdirs(), fam_links(),
           fam_twoprod(), fam_selfgen(), fam_nodetype(), fam_virtchain(), fam_multi3(), fam_modout(), fam_default()]
     return fs
